@@ -1633,7 +1633,21 @@ static void do_source_file(const char *filename_in,
 
    if (did_open)
    {
-      fclose(pfout);
+      // a write error (disk full, I/O error, ...) must not go unnoticed:
+      // the temp file would be renamed over the original below
+      bool write_failed = (ferror(pfout) != 0);
+
+      if (fclose(pfout) != 0)
+      {
+         write_failed = true;
+      }
+
+      if (write_failed)
+      {
+         LOG_FMT(LERR, "%s: Failed to write %s: %s (%d)\n",
+                 __func__, filename_tmp.c_str(), strerror(errno), errno);
+         exit(EX_IOERR);
+      }
 
       if (need_backup)
       {
